@@ -534,7 +534,7 @@ func scC13(spot bool) Scenario {
 }
 
 func init() {
-	register(&PropDef{ID: "C13", Quick: 3200, Thorough: 400000, Profiles: []ProfileDef{
+	register(&PropDef{ID: "C13", Quick: 8000, Thorough: 400000, Profiles: []ProfileDef{
 		{Name: "twin", Share: 1, Sc: scC13(false)},
 		{Name: "spot", Share: 2, Sc: scC13(true)},
 		{Name: "muxer-spot", Share: 1, Sc: scC13Muxer},
